@@ -6,11 +6,11 @@ Driver handler for C07 (stateful).  One op per line; the answer lists every mess
 the boundary in this op by its contents; `audit` prints the current contents of every published
 reference (crossing order) and of every caller-owned message.
 
-  init <writable|-> <initial msg|->
+  init <writable|-> <initial msg|-> <idmap: -|mod2>
   alloc <msg> | mutate <k> <msg>
-  vset <k> <umask> <before> <after> <expect|->           vget <rmask>   vpull <rmask> <uo>   vclose <i>
-  cupd <id> <k> <umask> <before> <after> <expect|-> <flags>   cdel <id> <expect|-> <flags>
-  cget <id> <rmask>   clist <rmask>   cpull <rmask> <uo>   cclose <i>
+  vset <k> <umask> <resetmask> <before> <after> <expect|->           vget <rmask>   vpull <rmask> <uo>   vclose <i>
+  cupd <id> <k> <umask> <resetmask> <before> <after> <expect|-> <flags>   cdel <id> <expect|-> <flags>
+  cget <id> <rmask>   clist <rmask>   cpull <rmask> <uo>   cpullid <id> <rmask> <uo>   cclose <i>
   audit
 
 msg = `a,b,c,d`; mask = `-` (nil) | `0` (empty) | letters of `abcd`; callbacks: `-` | `add:<f>` | `set:<f>:<n>`;
@@ -55,8 +55,8 @@ def parseCb? (s : String) : Option (Option (Cb Msg)) :=
     pure (some (cbSet i x))
   | _ => none
 
-def mkOpts (um : Option FMask) (b a : Option (Cb Msg)) (e : Option Msg) (flags : String) : WOpts Msg FMask :=
-  { umask := um, before := b, after := a, expected := e,
+def mkOpts (um rm : Option FMask) (b a : Option (Cb Msg)) (e : Option Msg) (flags : String) : WOpts Msg FMask :=
+  { umask := um, rmask := rm, before := b, after := a, expected := e,
     createIfAbsent := flags.toList.contains 'c', expectAbsent := flags.toList.contains 'x',
     allowMissing := flags.toList.contains 'm' }
 
@@ -64,18 +64,19 @@ def parseOp? (toks : List String) : Option (Op Msg FMask) :=
   match toks with
   | ["alloc", m] => do pure (.alloc (← parseMsg? m))
   | ["mutate", k, m] => do pure (.mutate (← parseNat? k) (← parseMsg? m))
-  | ["vset", k, um, b, a, e] => do
-    pure (.vset (← parseNat? k) (mkOpts (← parseMask? um) (← parseCb? b) (← parseCb? a) (← parseOptMsg? e) "-"))
+  | ["vset", k, um, rm, b, a, e] => do
+    pure (.vset (← parseNat? k) (mkOpts (← parseMask? um) (← parseMask? rm) (← parseCb? b) (← parseCb? a) (← parseOptMsg? e) "-"))
   | ["vget", rm] => do pure (.vget (← parseMask? rm))
   | ["vpull", rm, uo] => do pure (.vpull (← parseMask? rm) (← parseBool? uo))
   | ["vclose", i] => do pure (.vclose (← parseNat? i))
-  | ["cupd", id, k, um, b, a, e, fl] => do
-    pure (.cupd (← parseNat? id) (← parseNat? k) (mkOpts (← parseMask? um) (← parseCb? b) (← parseCb? a) (← parseOptMsg? e) fl))
+  | ["cupd", id, k, um, rm, b, a, e, fl] => do
+    pure (.cupd (← parseNat? id) (← parseNat? k) (mkOpts (← parseMask? um) (← parseMask? rm) (← parseCb? b) (← parseCb? a) (← parseOptMsg? e) fl))
   | ["cdel", id, e, fl] => do
-    pure (.cdel (← parseNat? id) (mkOpts none none none (← parseOptMsg? e) fl))
+    pure (.cdel (← parseNat? id) (mkOpts none none none none (← parseOptMsg? e) fl))
   | ["cget", id, rm] => do pure (.cget (← parseNat? id) (← parseMask? rm))
   | ["clist", rm] => do pure (.clist (← parseMask? rm))
   | ["cpull", rm, uo] => do pure (.cpull (← parseMask? rm) (← parseBool? uo))
+  | ["cpullid", id, rm, uo] => do pure (.cpullid (← parseNat? id) (← parseMask? rm) (← parseBool? uo))
   | ["cclose", i] => do pure (.cclose (← parseNat? i))
   | _ => none
 
@@ -91,23 +92,27 @@ def showAns (h : Heap Msg) (a : Ans) : String :=
 
 def showRefs (h : Heap Msg) (rs : List Ref) : String := ";".intercalate (rs.map fun r => showMsg (h r))
 
-def initState (w : Option FMask) (iv : Option Msg) : St Msg FMask :=
+/-- named id interceptors shared with the harness: `-` (none) or `mod2` (id ↦ id mod 2) -/
+def parseIdMap? (s : String) : Option (Nat → Nat) :=
+  if s = "-" then some id else if s = "mod2" then some (· % 2) else none
+
+def initState (w : Option FMask) (iv : Option Msg) (im : Nat → Nat) : St Msg FMask :=
   match iv with
-  | none => St.init w (fun _ => Msg.zero)
+  | none => { St.init w (fun _ => Msg.zero) with idmap := im }
   | some m =>
     -- WithInitialValue stores the given message itself; it counts as published from the start
-    { St.init w (fun _ => Msg.zero) with heap := Heap.set (fun _ => Msg.zero) 0 m, next := 1, val := some 0, pub := [0] }
+    { St.init w (fun _ => Msg.zero) with heap := Heap.set (fun _ => Msg.zero) 0 m, next := 1, val := some 0, pub := [0], idmap := im }
 
 abbrev DrvState := St Msg FMask
 
-def DrvState.start : DrvState := initState none none
+def DrvState.start : DrvState := initState none none id
 
 def handleCore (s : DrvState) (toks : List String) : DrvState × String :=
   match toks with
-  | ["init", w, iv] =>
-    match parseMask? w, parseOptMsg? iv with
-    | some w, some iv => (initState w iv, "ok")
-    | _, _ => (s, "!bad-op")
+  | ["init", w, iv, im] =>
+    match parseMask? w, parseOptMsg? iv, parseIdMap? im with
+    | some w, some iv, some im => (initState w iv im, "ok")
+    | _, _, _ => (s, "!bad-op")
   | ["audit"] => (s, "pub=" ++ showRefs s.heap s.pub ++ " own=" ++ showRefs s.heap s.owned)
   | _ =>
     match parseOp? toks with
